@@ -266,6 +266,22 @@ pub fn cmd_impl(args: &[String]) {
             a
         }
     });
+    // "a deterministic function of the name alone": the same names once more, in the opposite order and on fresh threads
+    // (so that nothing remembered from the first pass is there); a name whose forms depend on what was sanitised before
+    // it differs between the passes
+    let idx: Vec<usize> = (0..cases.len()).collect();
+    let chunks: Vec<Vec<usize>> = idx.chunks(512).map(|c| c.iter().rev().cloned().collect()).collect();
+    let second: Vec<Vec<(usize, String)>> = par_map(&chunks, |ch| {
+        let ch = ch.clone();
+        let cs: Vec<Vec<u8>> = ch.iter().map(|&i| cases[i].clone()).collect();
+        std::thread::spawn(move || ch.into_iter().zip(cs.iter().map(|c| obs_one(c))).collect::<Vec<_>>()).join().unwrap_or_default()
+    });
+    let mut obs = obs;
+    for (i, o2) in second.into_iter().flatten() {
+        if obs[i] != o2 && !obs[i].ends_with(" NONDET") {
+            obs[i] = format!("{} NONDET", obs[i]);
+        }
+    }
     let mut f = std::io::BufWriter::new(std::fs::File::create(out).unwrap());
     for o in &obs {
         writeln!(f, "{}", o).unwrap();
